@@ -12,6 +12,7 @@ import lbry.wallet  # noqa: F401  (import order, see DESIGN 2.3)
 from lbry.dht import constants
 from lbry.dht.error import RemoteException
 from lbry.dht.peer import PeerManager, make_kademlia_peer
+from lbry.dht.protocol.protocol import KademliaProtocol
 from lbry.dht.protocol.routing_table import TreeRoutingTable
 
 import vlib
@@ -60,7 +61,13 @@ class Impl:
         self.now = 0
         self.loop.time = lambda: self.now
         self.pm = PeerManager(self.loop)
-        self.rt = TreeRoutingTable(self.loop, self.pm, own.to_bytes(48, 'big'), is_bootstrap_node=bootstrap)
+        # the table under test is the one a real KademliaProtocol owns, so that its RPC layer (KademliaRPC.find_node /
+        # find_value, the callers of find_close_peers that answer remote requesters) can be queried as well; no
+        # transport is attached: the RPC methods are called directly, nothing is sent
+        self.protocol = KademliaProtocol(self.loop, self.pm, own.to_bytes(48, 'big'), '44.44.44.44', 4444, 3333,
+                                         is_boostrap_node=bootstrap)
+        self.rt = self.protocol.routing_table
+        assert isinstance(self.rt, TreeRoutingTable)
 
     def close(self):
         self.loop.close()
@@ -135,6 +142,19 @@ class Impl:
         except Exception as e:  # noqa
             return type(e).__name__
 
+    def rpc(self, which, requester, key):
+        """KademliaRPC.find_node(requester_contact, key) / find_value(requester_contact, key)[b'contacts']"""
+        try:
+            contact = self.mk(*requester)
+            kb = key.to_bytes(48, 'big')
+            if which == 'node':
+                res = self.protocol.node_rpc.find_node(contact, kb)
+            else:
+                res = self.protocol.node_rpc.find_value(contact, kb)[b'contacts']
+            return [[int.from_bytes(nid, 'big'), ip_int(addr), port or 0] for nid, addr, port in res]
+        except Exception as e:  # noqa
+            return type(e).__name__
+
     def get_peer(self, idv):
         try:
             p = self.rt.get_peer(idv.to_bytes(48, 'big'))
@@ -202,6 +222,23 @@ def monitor_find(own, contacts, key, count, sender, res):
     if want is not None and res != want:
         return (f'find_close_peers(key={hx(key)}, count={count}) returned {len(res)} contacts that are not the '
                 f'{len(want)} nearest in ascending XOR order')
+    return None
+
+
+def monitor_rpc(own, contacts, key, requester_id, res, which):
+    """a closest-contacts query answered to a requester: precisely the min(K, eligible) known contacts nearest the
+    key in ascending XOR order, excluding the node itself and the requester"""
+    if not isinstance(res, list):
+        return f'find_{which} raised {res}'
+    cand = sorted((p for p in contacts if p[0] != own and p[0] != requester_id), key=lambda p: p[0] ^ key)
+    want = cand[:K]
+    if res != want:
+        what = ('holds the requester itself' if any(p[0] == requester_id for p in res) else
+                'holds the node itself' if any(p[0] == own for p in res) else
+                f'holds {len(res)} contacts where {len(want)} are eligible and nearest' if len(res) != len(want) else
+                'is not the nearest contacts in ascending XOR order')
+        return (f'RPC find_{which}(requester={hx(requester_id)[:12]}.., key={hx(key)[:12]}..) with {len(cand)} eligible '
+                f'contacts known: the answer {what}')
     return None
 
 
@@ -325,6 +362,15 @@ def execute(model, case, rp=True):
                 bad = monitor_find(own, before, key, count, sender, iobs)
                 out.count('find:count=' + ('None' if count is None else 'neg' if count < 0 else
                                            str(count) if count <= K else '>K'))
+            elif kind == 'rpc':
+                key, req, which = int(o[1], 16), [int(o[2][0], 16), o[2][1], o[2][2]], o[3]
+                iobs = impl.rpc(which, req, key)
+                m = model.call('rpc_find_node' if which == 'node' else 'rpc_find_value', key=key, requester=req[0])
+                bad = monitor_rpc(own, before, key, req[0], iobs, which)
+                inside = any(q[0] == req[0] for q in before)
+                out.count('rpc:' + which + (':requester-in-table' if inside else ':requester-unknown') +
+                          (':own-id-lookup' if key == req[0] else '') +
+                          (':known<=K' if len(before) <= K else ':known=K+1' if len(before) == K + 1 else ':known>K+1'))
             elif kind == 'get':
                 idv = int(o[1], 16)
                 iobs = impl.get_peer(idv)
@@ -373,6 +419,9 @@ def execute_bootstrap(case):
             elif kind == 'find':
                 key, count, sender = int(o[1], 16), o[2], (None if o[3] is None else int(o[3], 16))
                 bad = monitor_find(own, before, key, count, sender, impl.find_close(key, count, sender))
+            elif kind == 'rpc':
+                key, req = int(o[1], 16), [int(o[2][0], 16), o[2][1], o[2][2]]
+                bad = monitor_rpc(own, before, key, req[0], impl.rpc(o[3], req, key), o[3])
             if bad:
                 return n, 'bootstrap node: ' + bad
         return None
@@ -503,6 +552,58 @@ class Gen:
         ops.append(o)
         impl.add(impl.mk(int(o[1], 16), o[2], o[3]), set())
         return True
+
+    def rpc_op(self, own, cons, tab, classes):
+        """a closest-contacts query through the RPC layer: requester inside or outside the table, key = the requester's
+        own id (a joining node looking itself up), another contact's id, a neighbour of either, the own id, random"""
+        rng = self.rng
+        if cons and rng.random() < 0.7:
+            q = rng.choice(cons)
+            req = [hx(q[0]), q[1], q[2] or 4444]
+        else:
+            req = [hx(self.distance(rng, classes, tab) ^ own), BASE_IP + 40000 + rng.randrange(1000), 4444]
+        v = rng.random()
+        if v < 0.45:
+            key = int(req[0], 16)
+        elif v < 0.6:
+            key = int(req[0], 16) ^ (1 << rng.randrange(0, 12))
+        elif v < 0.8 and cons:
+            key = rng.choice(cons)[0]
+        elif v < 0.9:
+            key = own ^ rng.choice([0, 1, 1 << 383])
+        else:
+            key = rng.getrandbits(BITS)
+        return ['rpc', hx(key), req, rng.choice(['node', 'node', 'value'])]
+
+    def rpc_case(self):
+        """K-1, K, K+1, K+2 or many contacts, then EVERY contact (and one stranger) queries its own id, the id of its
+        nearest known neighbour and a random key through find_node / find_value"""
+        rng = self.rng
+        own = rng.choice(SPECIAL_OWN) if rng.random() < 0.2 else rng.getrandbits(BITS)
+        n = rng.choice([K - 1, K, K + 1, K + 1, K + 2, K + 2, 12, 20, 40])
+        spread = rng.choice(['random', 'random', 'cluster', 'prefix'])
+        ops, ids = [], []
+        while len(ids) < n:
+            if spread == 'random':
+                d = rng.getrandbits(BITS)
+            elif spread == 'cluster':
+                d = (1 << rng.choice([383, 382, 200])) + rng.randrange(1, 64)
+            else:
+                d = (1 << rng.randrange(370, 384)) + rng.getrandbits(20)
+            if d and (d ^ own) not in ids:
+                ids.append(d ^ own)
+                ops.append(['add', hx(d ^ own), BASE_IP + 50000 + len(ids), 4444, [], 0])
+        if rng.random() < 0.4 and ids:              # a removal in between: the answer has to follow the table
+            j = rng.randrange(len(ids))
+            ops.append(['remove', hx(ids[j]), BASE_IP + 50000 + j + 1, 4444])
+        stranger = [hx(rng.getrandbits(BITS)), BASE_IP + 59999, 4444]
+        reqs = [[hx(i), BASE_IP + 50000 + k + 1, 4444] for k, i in enumerate(ids)] + [stranger]
+        for req in reqs:
+            rid = int(req[0], 16)
+            near = min((i for i in ids if i != rid), key=lambda i: i ^ rid, default=rid)
+            for key in (rid, near, rng.getrandbits(BITS)):
+                ops.append(['rpc', hx(key), req, 'node' if rng.random() < 0.7 else 'value'])
+        return {'own': hx(own), 'ops': ops}
 
     def stale_kth_case(self):
         """the same scenario built from scratch (deterministic shape, random parameters): K far contacts filling the
@@ -640,7 +741,7 @@ class Gen:
                         o = ['remove', hx(q[0]), BASE_IP + rng.randrange(n_addr), q[2]]   # right id, other address
                     else:
                         o = ['remove', hx(rng.getrandbits(BITS)), BASE_IP + rng.randrange(n_addr), rng.choice(ports)]
-                elif c < 0.95:
+                elif c < 0.93:
                     v = rng.random()
                     if v < 0.35 and cons:
                         key = rng.choice(cons)[0] ^ (1 << rng.randrange(BITS) if rng.random() < 0.5 else 0)
@@ -656,6 +757,8 @@ class Gen:
                     sender = None if sv < 0.4 else hx(rng.choice(cons)[0]) if cons and sv < 0.8 else \
                         hx(own) if sv < 0.9 else hx(rng.getrandbits(BITS))
                     o = ['find', hx(key), count, sender]
+                elif c < 0.975:
+                    o = self.rpc_op(own, cons, tab, classes)
                 else:
                     idv = rng.choice(cons)[0] if cons and rng.random() < 0.6 else self.distance(rng, classes, tab) ^ own
                     o = ['get', hx(idv)]
@@ -767,14 +870,15 @@ def old_join_witness(model):
 def main(run):
     model = vlib.Model('C11')
     rng = run.rng
-    n_cases = vlib.scaled(run.tier, 240, 6000)
+    n_cases = vlib.scaled(run.tier, 200, 6000)
     run.rule = ('one case = one history (30..140 operations, thorough ..260) on a fresh table: adds whose ids share a chosen number of '
                 'prefix bits (0..384) with the own id or sit on exact boundaries of the CURRENT buckets (lo, hi-1, '
                 'midpoint+-1, split point), refreshes, re-adds with changed address or changed id, adds/removes without '
                 'node id, removals (present, absent, whole middle bucket emptied), malformed contacts, peer-manager '
                 'events (replied/failure/requested) and clock steps around 60 s and 720 s, probe outcomes chosen per '
                 'contact (timeout or RemoteException), find_close_peers with keys near contacts/own id/bucket edges and '
-                'counts None,0,1..1000,negative, get_peer; plus the macro "far newcomer turned away by a full bucket, then one of '
+                'counts None,0,1..1000,negative, get_peer, the same queries through KademliaRPC.find_node / find_value of a real '
+                'KademliaProtocol owning the table (requester inside/outside the table, key = requester id, K-1..K+2 contacts); plus the macro "far newcomer turned away by a full bucket, then one of '
                 'the K closest contacts removed or evicted, then a newcomer closer than the new K-th closest" inside random '
                 'histories and as histories built from scratch. distinct = distinct history; non-trivial = the table split at '
                 'least once or admitted a contact.')
@@ -793,6 +897,9 @@ def main(run):
     for _ in range(vlib.scaled(run.tier, 24, 600)):
         check_case(run, model, gen.stale_kth_case(), 'kth-after-removal')
     run.count('macro:kth-after-removal-in-random-history', gen.macro_hits)
+    # closest-contacts queries through the RPC layer, every contact as requester, K-1..K+2 and more contacts known
+    for _ in range(vlib.scaled(run.tier, 14, 300)):
+        check_case(run, model, gen.rpc_case(), 'rpc-every-requester')
     # bootstrap-node tables (capacity 2^32 in the first bucket) are outside the model: monitor only
     for _ in range(vlib.scaled(run.tier, 12, 300)):
         case = gen.history(model)
